@@ -1,6 +1,11 @@
 package aac
 
-import "github.com/cnotch/ipchub/zzverif/symapi"
+import (
+	"github.com/cnotch/ipchub/av/codec"
+	"github.com/cnotch/ipchub/zzverif/symapi"
+)
+
+var verifRates = [16]int{96000, 88200, 64000, 48000, 44100, 32000, 24000, 22050, 16000, 12000, 11025, 8000, 7350, 0, 0, 0}
 
 // VerifAscDecode: AudioSpecificConfig of 2..N bytes: object type, sampling frequency and
 // channel configuration equal ISO 14496-3 1.6.2.1 for the plain (non-escape) layout; any
@@ -17,9 +22,22 @@ func VerifAscDecode() {
 		if ot != 31 && fi != 15 {
 			ch := b[1] >> 3 & 0xf
 			symapi.Assert(asc.ObjectType == ot || ot == 5 || ot == 29, "object-type")
-			if ot != 5 && ot != 29 {
-				symapi.Assert(asc.SamplingIndex == fi, "sampling-frequency-index")
-				symapi.Assert(asc.ChannelConfig == ch, "channel-configuration")
+			symapi.Assert(asc.SamplingIndex == fi && asc.SampleRate == verifRates[fi], "sampling-frequency")
+			symapi.Assert(asc.ChannelConfig == ch, "channel-configuration")
+			if (ot == 5 || ot == 29) && n >= 3 {
+				// explicit hierarchical SBR / PS signalling (1.6.2.1): extensionSamplingFrequencyIndex
+				// and the underlying object type follow. Outside the claim: the bit patterns ffmpeg
+				// treats as the MP3onMP4 draft clash for object type 29.
+				efi := (b[1]&7)<<1 | b[2]>>7
+				core := b[2] >> 2 & 0x1f
+				clash := ot == 29 && (b[1]>>0)&3 != 0 && ((b[1]&7)<<6|b[2]>>2)&0x3f == 0
+				if efi < 13 && fi < 13 && core != 31 && !clash { // 13, 14 are reserved index values
+					symapi.Assert(asc.Sbr == 1 && asc.ExtObjectType == 5, "explicit-sbr-signalled")
+					symapi.Assert(asc.ExtSamplingIndex == efi && asc.ExtSampleRate == verifRates[efi], "extension-sampling-frequency")
+					symapi.Assert(asc.ObjectType == core, "underlying-object-type")
+					am := &codec.AudioMeta{Codec: "AAC", Sps: b}
+					symapi.Assert(MetadataIsReady(am) && am.SampleRate == verifRates[efi], "reported-sample-rate-is-the-extension-rate")
+				}
 			}
 		}
 		symapi.Reach("accepted")
